@@ -214,6 +214,12 @@ func floatJ(f float64) *FloatJ {
 // neither looks like a converted one nor narrows to zero).
 func dirty[D signal.SignalTypes](i int) D {
 	var z D
+	if z-1 < 0 && (z+1)/2 != 0 { // a floating-point type (named ones included): 1/2 is not truncated
+		if i%2 == 0 {
+			return D(1) / 3
+		}
+		return -D(2) / 3
+	}
 	switch any(z).(type) {
 	case float32, float64:
 		if i%2 == 0 {
